@@ -133,6 +133,18 @@ pub struct SerdeFieldAttributes {
     pub rename: Option<String>,
     pub skip: bool,
 }
+/// Verification hooks: public access to the private token-string parsers (compiled only with
+/// `--cfg thwbh_tauri_typegen_verif`)
+#[cfg(thwbh_tauri_typegen_verif)]
+impl SerdeParser {
+    pub fn verif_parse_rename_all(&self, tokens: &str) -> Option<RenameRule> {
+        self.parse_rename_all(tokens)
+    }
+    pub fn verif_parse_rename(&self, tokens: &str) -> Option<String> {
+        self.parse_rename(tokens)
+    }
+}
+
 #[cfg(test)]
 mod tests {
     use super::*;
